@@ -261,7 +261,7 @@ theorem gapT_core {f fc f2 : Forest} {a b q : Nat} {vq : Value} {l0 r0 : List HT
     subst h2
     have := sc.edit (replaceTop P.handle (fun k => [k.setValue (.text (ps ++ bs))]) ∘ dropTop a) (by
       rw [hG]
-      simp only [handlesList_append, handlesList_cons, setValue_handles]
+      simp only [fs_handlesList_append, handlesList_cons, setValue_handles]
       exact (List.Sublist.refl _).append ((List.Sublist.refl _).append (List.sublist_append_right _ _)))
     rw [hG] at this
     exact this
